@@ -66,8 +66,11 @@ try:
     import bs4
     import soupsieve
     out['soupsieve_file'] = soupsieve.__file__
-    for parser in spec['parsers']:
-        soup = bs4.BeautifulSoup(spec['markup'], parser)
+    docs = [(p, spec['markup']) for p in spec['parsers']] + [('html.parser#2', spec.get('markup2'))]
+    for parser, markup in docs:
+        if markup is None:
+            continue
+        soup = bs4.BeautifulSoup(markup, parser.split('#')[0])
         for sel in spec['selectors']:
             def lab(xs):
                 return [[x.name, x.get('id')] for x in xs]
@@ -80,6 +83,19 @@ try:
             except BaseException as ex:  # noqa: BLE001
                 b = 'raise %s' % type(ex).__name__
             out['results'][parser + ' | ' + sel] = [a, b]
+            # Beautiful Soup's own wrappers with a limit / select_one / the .css accessor
+            try:
+                a2 = [lab(soup.select(sel, limit=2)), lab([soup.select_one(sel)] if soup.select_one(sel) is not None else []),
+                      lab(list(soup.css.iselect(sel, limit=1))), lab(soup.css.filter(sel))]
+            except BaseException as ex:  # noqa: BLE001
+                a2 = 'raise %s' % type(ex).__name__
+            try:
+                one = soupsieve.select_one(sel, soup)
+                b2 = [lab(soupsieve.select(sel, soup, limit=2)), lab([one] if one is not None else []),
+                      lab(list(soupsieve.iselect(sel, soup, limit=1))), lab(soupsieve.filter(sel, soup))]
+            except BaseException as ex:  # noqa: BLE001
+                b2 = 'raise %s' % type(ex).__name__
+            out['results'][parser + ' | ' + sel + ' | limit'] = [a2, b2]
 except BaseException as ex:  # noqa: BLE001
     out['errors'].append('query phase -> %s: %s' % (type(ex).__name__, str(ex)[:200]))
 json.dump(out, open(sys.argv[2], 'w'))
